@@ -378,9 +378,10 @@ def deadlinesAllow (cfg : Cfg) (s : State) (n : Nat) : Bool :=
 
 def failTS (fail : Bool) : TS := if fail then .failed else .cancelled
 
-/-- ghost: remember the time of the FIRST failure that the code escalates (a failing stream or task whose owner
-    is still listening; NOT an HTTP 404 of a gone resource, NOT a worker failing while its watcher is already in
-    its `finally:`, NOT a failing cleanup) -/
+/-- ghost: remember the time of the FIRST failure that the modelled code escalates (a failing stream or task whose
+    owner is still listening; NOT an HTTP 404 of a gone resource, NOT a worker failing while its watcher is already
+    in its `finally:`, NOT a failing cleanup; an ensemble task only in the variant `fixed`, the core task only in
+    the variant `coreWatched`) -/
 def markFail (s : State) : Option Nat :=
   match s.tFail with
   | some t => some t
@@ -482,7 +483,10 @@ def step (cfg : Cfg) (s : State) : Label → Option State
     if s.rt ≠ .exited ∧ s.core.live = true then
       match how with
       | .cancelled => if s.coreCreq = true then some { s with core := .cancelled, coreCreq := false } else none
-      | .failed => if s.core = .running then some { s with core := .failed, tFail := markFail s } else none
+      | .failed =>
+        if s.core = .running then
+          some { s with core := .failed, tFail := if cfg.coreWatched then markFail s else s.tFail }
+        else none
       | _ => none
     else none
   | .rootStopping r fail =>
@@ -578,7 +582,8 @@ def step (cfg : Cfg) (s : State) : Label → Option State
     if s.rt ≠ .exited ∧ i < s.nSubs ∧ s.st (.sub i) = .running
         ∧ (fail = true ∨ (s.creq (.sub i) = true ∧ s.werr (.sub i) = false)) then
       some { s with st := upd s.st (.sub i) (.stopping fail (some (s.now + grace cfg s (.sub i)))),
-                    creq := upd s.creq (.sub i) false, tFail := if fail then markFail s else s.tFail }
+                    creq := upd s.creq (.sub i) false,
+                    tFail := if fail = true ∧ cfg.fixed = true then markFail s else s.tFail }
     else none
   | .subGone i =>
     -- the (re-)listing of the watcher got HTTP 404 (`APINotFoundError`): the resource is gone, e.g. its CRD was
@@ -646,7 +651,9 @@ def step (cfg : Cfg) (s : State) : Label → Option State
           -- `_task_done_callback` → `exception_handler`: the first error cancels the watcher
           if s.st o = .running ∧ s.werr o = false then
             some { s with wk := upd s.wk w (some (o, .failed)), werr := upd s.werr o true,
-                          creq := upd s.creq o true, tFail := markFail s }
+                          creq := upd s.creq o true,
+                          tFail := if (match o with | .root _ => true | .sub _ => cfg.fixed) = true then markFail s
+                                   else s.tFail }
           -- the watcher is already in its `finally:` (or has a first error): the failure is only logged
           else some { s with wk := upd s.wk w (some (o, .failed)) }
       | _ => none
@@ -763,5 +770,44 @@ def runC (cfg : Cfg) : State → List Label → Option State
 
 /-- `s` is reachable by a cooperative run. -/
 def ReachC (cfg : Cfg) (s : State) : Prop := ∃ ls, runC cfg init ls = some s
+
+/-! ### internal steps: what the operator (and cooperative user code) does by itself -/
+
+/-- The label is a step of the framework itself or of cooperative user code reacting to it — NOT an action of the
+    environment: no new stop trigger (`setStopFlag`, `rtCancel`), no new failure of a stream, task or handler (a task
+    may end `failed` only as the consequence of an earlier failure: `stopping true`, a worker error, a failed core
+    task), no new work (`subSpawn`, `workerStart`, `daemonSpawn`, `orphan`, `act`), no redundancy (`subGone`,
+    `subCancel`). Used by the progress theorem `returns`: after a trigger the operator gets to `exited` on its own. -/
+def internal (s : State) : Label → Bool
+  | .delay _ => true
+  | .scStartupBegin | .setStarted | .ready | .scWake | .scWaitRootsEnd | .scStopCore | .scCoreStopped
+  | .vaultClosed => true
+  | .scStartupEnd o => o != .failed
+  | .scCleanupEnd o => o == .none
+  | .enter _ | .coreEnter => true
+  | .coreEnd how => how == .cancelled
+  | .rootStopping r fail => !fail || s.werr (.root r) || (r == .orchestrator && s.orchErr)
+  | .rootEnd r how => how != .failed || s.st (.root r) != .running || r == .startupCleanup || r == .coreWatcher
+  | .subStopping i fail => !fail || s.werr (.sub i)
+  | .withdraw _ _ | .subEnd _ _ => true
+  | .workerEnd _ how => how != .failed
+  | .daemonExit _ | .waiterEnd | .orphanEnd => true
+  | .rtStopRoots | .rtHungWait | .rtStopHung | .rtCStopHung | .rtExit _ => true
+  | _ => false
+
+/-- a cooperative run of internal steps only -/
+def runI (cfg : Cfg) : State → List Label → Option State
+  | s, [] => some s
+  | s, l :: ls =>
+    if internal s l = true then
+      match stepC cfg s l with
+      | some s' => runI cfg s' ls
+      | none => none
+    else none
+
+/-- something has happened after which the operator must shut down: a stop was requested, a root task has ended
+    (for whatever reason), or `run_tasks` is already past its first wait -/
+def Triggered (s : State) : Prop :=
+  s.rt ≠ .waiting ∨ anyRootEnded s = true ∨ s.stopFlagSet = true
 
 end Kopf.C20
